@@ -1,4 +1,4 @@
-import Snel.Lemmas.ShardCrash
+import Snel.Lemmas.ShardShutdown
 /-!
 # C01 — applied writes survive any crash and restart, exactly once
 
@@ -35,6 +35,29 @@ theorem C01_store_durable_partial (s : Shard) (e : Ev) (h : s.walOrphan = false)
     e.k ∈ visibleKeys (step (store s e) .crash) := by
   obtain ⟨f, hf, he⟩ := store_in_wal s e h
   exact C01_restart_recovers_durable_state (store s e) e (Or.inr ⟨f, hf, he⟩)
+
+/-- Clean-shutdown clause, full strength (and independent of WAL buffering, which the model of
+this clause never consults): for EVERY history of stores, manual flushes and single
+flush-worker steps whose restarts are all clean shutdowns (`flush_all`, stop, restart) — any
+number of them, at any point — every event ever stored is produced by a scan at the end. -/
+theorem C01_clean_shutdown (cap k : Nat) (ops : List Op) (h : ∀ o ∈ ops, o.noKill = true) :
+    ∀ e ∈ storedEvents ops, e.k ∈ visibleKeys (runOps (Shard.init cap k) ops) := by
+  intro e he
+  have hc := (runOps_clean ops (init_inv cap k) (init_inv3 cap k) h).2.2.2 e he
+  simp only [visibleKeys, List.mem_eraseDups, List.mem_map]
+  exact ⟨e, cover_scan hc, rfl⟩
+
+/-- The flush worker terminates: draining leaves no job (6 hook intervals per job suffice). -/
+theorem C01_flush_worker_terminates (s : Shard) : (drainAll s).jobs = [] := drainAll_jobs_nil s
+
+/-- Non-vacuity of `C01_clean_shutdown`: stores, a clean restart, more stores, another one. -/
+example : (∀ o ∈ [Op.store ⟨1,0,0⟩, .store ⟨2,0,0⟩, .store ⟨3,0,0⟩, .shutdown, .store ⟨4,0,0⟩, .shutdown],
+      o.noKill = true) ∧
+    visibleKeys (runOps (Shard.init 2 2) [.store ⟨1,0,0⟩, .store ⟨2,0,0⟩, .store ⟨3,0,0⟩, .shutdown,
+      .store ⟨4,0,0⟩, .shutdown]) = [1, 2, 3, 4] := by
+  constructor
+  · intro o ho; simp at ho; rcases ho with rfl | rfl | rfl | rfl | rfl | rfl <;> rfl
+  · decide
 
 /-- The full durability statement fails: three stores (capacity 4), a manual FLUSH, a fourth
 acknowledged store, crash: event 4 is gone. The FLUSH consumed segment id 0 while the WAL was
